@@ -154,3 +154,32 @@ Theorem C06_emphasis_phrases_hypotheses :
   sentence_ok ($"Say ") [(42%Z, 0%nat, $"one", $"and")] = false.
 Proof. exact phrases_instance. Qed.
 Print Assumptions C06_emphasis_phrases_hypotheses.
+
+(* NESTED emphasis (Proofs/NestedEmph.v): an emphasised phrase whose content is itself a sentence with ANY NUMBER of emphasised phrases -
+   pre, a run R of one or two * or _, the text h (beginning with a letter-like character, ending in white space or punctuation), the
+   inner phrases, the text z (ending in a letter-like character), R again, post.  The scanner leaves O, o1, c1, ..., on, cn, C on the
+   delimiter stack; process_emphasis matches every inner closer with the opener next to it and then the outer pair (nested_pairs: by
+   induction on the number of inner pairs); the candidates arrive inner-first, the stable sort puts the outer one in front, the span
+   tokenizer nests the inner chain in its parse group (tokenize_nested); the tokens are ONE Emphasis / Strong holding h, the inner
+   phrases with the text between them, z *)
+From Mistletoe Require Import Proofs.NestedEmph.
+Theorem C06_nested_emphasis : forall types fn CH KK pre h ps z post,
+  emph_spans types = true -> nest_ok CH KK pre h ps z post = true ->
+  Inline.tokenize_inner types fn (nest_text CH KK pre h ps z post) = EmphSentence.raw_if pre ++ [nest_of CH KK h ps z] ++ EmphSentence.raw_if post.
+Proof. exact nested_emphasis. Qed.
+Print Assumptions C06_nested_emphasis.
+
+Theorem C06_nested_pairs : forall s O C pairs ms, pair_ok (O, C) -> Forall pair_ok pairs -> (S (length pairs) <= 3 * length s + 3)%nat ->
+  CoreTokens.process_emphasis s None (O :: flat pairs ++ [C]) ms = ([], ms ++ map (match_of s) pairs ++ [match_of s (O, C)]).
+Proof. exact nested_pairs. Qed.
+Print Assumptions C06_nested_pairs.
+
+Theorem C06_nested_emphasis_instance :
+  let ps := [(95, 0%nat, $"two", $" and "); (42, 1%nat, $"three words", $", ")]%Z in
+  nest_ok 42 0 ($"Say ") ($"one ") ps ($"four") ($".") = true /\
+  nest_text 42 0 ($"Say ") ($"one ") ps ($"four") ($".") = $"Say *one _two_ and **three words**, four*." /\
+  nest_of 42 0 ($"one ") ps ($"four") =
+    Emphasis [42%Z] [RawText ($"one "); Emphasis [95%Z] [RawText ($"two")]; RawText ($" and "); Strong [42%Z] [RawText ($"three words")]; RawText ($", four")] /\
+  nest_ok 42 0 ($"Say ") ($"one") ps ($"four") ($".") = false.
+Proof. exact nested_instance. Qed.
+Print Assumptions C06_nested_emphasis_instance.
